@@ -51,3 +51,22 @@ Proof.
   rewrite Ht in H3. rewrite forallb_forall in H3. specialize (H3 l Hl).
   apply Nat.eqb_eq in H3. exact H3.
 Qed.
+
+(** * The block bloom: exactly one EventBlockBloom is published per block and it folds in exactly the
+    logs of the block (all phases).  [pubs] = for every published bloom, the logs folded into it. *)
+Definition Pbloom (es : list emit) (pubs : list (list (nat * nat))) : Prop := pubs = [all_logs es].
+
+(** On implementation traces a published bloom is observed as (number of logs of the block emitted before the
+    EventBlockBloom event, does it equal the union of the blooms of ALL logs of the block). *)
+Definition Pobs (es : list emit) (pubs : list nat) (bloom_ok : bool) : Prop :=
+  P es /\ pubs = [length (all_logs es)] /\ bloom_ok = true.
+
+Definition Pobs_b (es : list emit) (pubs : list nat) (bloom_ok : bool) : bool :=
+  Pb es && list_eqb pubs [length (all_logs es)] && bloom_ok.
+
+Lemma Pobs_b_sound es pubs ok : Pobs_b es pubs ok = true -> Pobs es pubs ok.
+Proof.
+  unfold Pobs_b, Pobs. intro H.
+  apply andb_true_iff in H as [H H3]. apply andb_true_iff in H as [H1 H2].
+  split; [apply Pb_sound; exact H1|]. split; [apply list_eqb_eq; exact H2| exact H3].
+Qed.
